@@ -719,9 +719,9 @@ def canon_key(rec):
     if k == "resync":
         return "resync comp=%s access=%s input=%s" % (rec.get("comp"), rec.get("access"), hexb(rec["input"]))
     if k == "injective":
-        return "injective comp=%s event=%s" % (rec.get("comp"), "/".join(map(str, rec["event"][1:])))
+        return "injective comp=%s after=%s event=%s" % (rec.get("comp"), rec.get("after", []), "/".join(map(str, rec["event"][1:])))
     if k == "makebreak":
-        return "makebreak comp=%s seq=%s" % (rec.get("comp"), " ".join(hexb(b) for b in rec["seq"]))
+        return "makebreak comp=%s after=%s seq=%s" % (rec.get("comp"), rec.get("after", []), " ".join(hexb(b) for b in rec["seq"]))
     if "cells" in rec and "layout" in rec:
         rec = dict(rec, cells=[list(c) for c in rec["cells"]])
         dig = hashlib.sha256(json.dumps(sorted(rec["cells"])).encode()).hexdigest()[:10]
